@@ -18,7 +18,7 @@ import (
 
 // SrvCfg is an upgrader configuration (each dimension: variant 0 = nil / not configured).
 var SrvFields = []Field{
-	{"proto", []string{"nil", "all", "b", "none", "custom-all", "custom-b"}},
+	{"proto", []string{"nil", "all", "b", "none", "custom-all", "custom-b", "sel-equal-b", "sel-slice-b", "sel-bigslice-b"}},
 	{"ext", []string{"nil", "all", "none", "custom-all", "negotiate-echo", "negotiate-decline", "negotiate-error", "negotiate-pmd", "negotiate-error-x", "negotiate-error-y"}},
 	{"header", []string{"nil", "one", "bytes", "http", "func-long", "func-long-fails"}},
 	{"onrequest", []string{"nil", "ok", "err", "reject403", "err-list"}},
@@ -84,6 +84,17 @@ func acceptProto(kind string) func(string) bool {
 		return func(p string) bool { return p == "b" }
 	case "none":
 		return func(string) bool { return false }
+	case "sel-equal-b":
+		return ws.SelectEqual("b")
+	case "sel-slice-b":
+		return ws.SelectFromSlice([]string{"x", "b", "y"})
+	case "sel-bigslice-b":
+		// more than 16 entries: the helper switches to a map
+		var many []string
+		for i := 0; i < 20; i++ {
+			many = append(many, fmt.Sprintf("zz%02d", i))
+		}
+		return ws.SelectFromSlice(append(many, "b"))
 	}
 	return nil
 }
@@ -92,7 +103,7 @@ func acceptProto(kind string) func(string) bool {
 func (c SrvCfg) Upgrader() ws.Upgrader {
 	var u ws.Upgrader
 	switch p := c.V("proto"); p {
-	case "all", "b", "none":
+	case "all", "b", "none", "sel-equal-b", "sel-slice-b", "sel-bigslice-b":
 		f := acceptProto(p)
 		u.Protocol = func(b []byte) bool { return f(string(b)) }
 	case "custom-all", "custom-b":
@@ -187,7 +198,7 @@ func (c SrvCfg) HTTPUpgrader() (u ws.HTTPUpgrader, ok bool) {
 		}
 	}
 	switch p := c.V("proto"); p {
-	case "all", "b", "none":
+	case "all", "b", "none", "sel-equal-b", "sel-slice-b", "sel-bigslice-b":
 		u.Protocol = acceptProto(p)
 	case "nil":
 	default:
